@@ -1,4 +1,5 @@
 SPECIFICATION Spec
 CONSTANTS KillNodes = FALSE Items = {1,2,3}  Threads = {1,2,3}  ProgSet <- All
-INVARIANTS NoDeadAccess PopXorRemove AtRest NoItemLost SentinelBack
+INVARIANTS NoDeadAccess PopXorRemove AtRest NoItemLost SentinelBack MappingAtRest
+PROPERTY Refines
 CHECK_DEADLOCK TRUE
